@@ -60,6 +60,16 @@ def claimKey (raw : Bytes) : Option (Option ClaimKey × Bytes) :=
   | some (.tstr s) => some (some (.text s), encode (.tstr s))
   | _ => none
 
+/-- the decoded key of a member is the integer label `l` -/
+def keyIs (l : Int) (t : Option ClaimKey × Bytes × Bytes) : Bool :=
+  match t.1 with | some (.int i) => i == l | _ => false
+
+/-- one typed member: absent ↦ the zero value, present ↦ decoded strictly -/
+def fieldOf {α} (raw : Option Bytes) (zero : α) (f : Cbor → Dec α) : Dec α :=
+  match raw with
+  | none => .ok zero
+  | some raw => (match decodeAll raw with | some c => f c | none => .err)
+
 def splitPairs : List Bytes → Option (List (Bytes × Bytes))
   | [] => some []
   | [_] => none
@@ -89,11 +99,8 @@ def claimsDecode (data : Bytes) : Dec ClaimsS :=
           | some keyed =>
             if !decide ((keyed.map (·.2.1)).Nodup) then .err else
             let get (l : Int) : Option Bytes :=
-              (keyed.find? (fun t => match t.1 with | some (.int i) => i == l | _ => false)).map (·.2.2)
-            let field {α} (l : Int) (zero : α) (f : Cbor → Dec α) : Dec α :=
-              match get l with
-              | none => .ok zero
-              | some raw => (match decodeAll raw with | some c => f c | none => .err)
+              (keyed.find? (keyIs l)).map (·.2.2)
+            let field {α} (l : Int) (zero : α) (f : Cbor → Dec α) : Dec α := fieldOf (get l) zero f
             (match field 1 [] strField, field 2 [] strField, field 3 [] strField,
                    field 4 0 u64Field, field 5 0 u64Field, field 6 0 u64Field, field 7 none bytesField with
              | .ok a, .ok b', .ok c, .ok d, .ok e, .ok f, .ok g => .ok ⟨a, b', c, d, e, f, g⟩
